@@ -10,7 +10,7 @@ import itertools
 from hypothesis import strategies as st
 
 from eglib import graphs
-from eglib.driver import Violation, sharded
+from eglib.driver import Violation, require, sharded
 from eglib.model import ANY, BACKWARD, ERROR, FORWARD, NEIGHBOR, NONNEIGHBOR, RefNotImplemented, ref_neighbors
 
 ID = "C04"
@@ -109,7 +109,33 @@ def check_case(case):
         return _check_case(case)
 
 
+def _anonymous_neighbours(case):
+    """A graph whose vertices and links are referenced by NOBODY but the graph itself (a builder that returns only
+    its root): the neighbours are still there after a garbage collection."""
+    import gc
+
+    from eglib import classes as C
+
+    k = case.get("order", 0)
+    E = C.LINK_CLASSES[k % 4]
+    root = C.Vertex(attributes={"i": -1})
+    for n in range(3):
+        if (k + n) % 2:
+            E(root, C.Vertex(attributes={"i": n}))
+        else:
+            E(C.Vertex(attributes={"i": n}), root)
+    gc.collect()
+    got = sorted((getattr(x, "i", "not-a-vertex:%r" % (x,)) if x is not None else "None" for x in h.neighbors(root, ANY, NEIGHBOR)), key=str)
+    require(got == [0, 1, 2], "neighbours-lost", f"a star built from unnamed vertices ({E.__name__}), after gc.collect(): neighbors(root, ANY) -> {got}, expected the three vertices 0, 1, 2")
+
+
+_ANON = [0]
+
+
 def _check_case(case):
+    _ANON[0] += 1
+    if _ANON[0] % 25 == 1:       # (a full garbage collection is not cheap: the first and then every 25th case of a process)
+        _anonymous_neighbours(case)
     vs, ls = graphs.build(case["g"])
     info = _check_world(case, vs, ls)
     if not case["g"].get("eq") and ls and case.get("order", 0) % 2:
